@@ -99,7 +99,7 @@ def model_programs(tier):
     return out, sizes
 
 
-def build_pool(tier="quick", parts=("A", "M", "K", "K1")):
+def build_pool(tier="quick", parts=("A", "M", "K", "K1"), model_tier=None):
     """[(origin, text)] of programs accepted by the parser under test."""
     pool = []
     sizes = {}
@@ -108,7 +108,9 @@ def build_pool(tier="quick", parts=("A", "M", "K", "K1")):
         pool += [("A", t) for t in a]
         sizes.update(sz)
     if "M" in parts:
-        m, sz = model_programs(tier)
+        # consumers whose cost per program is high (C11, C17, C18) keep the
+        # quick-tier model sentences in the thorough tier and deepen elsewhere
+        m, sz = model_programs(model_tier or tier)
         pool += m
         sizes.update(sz)
     if "K" in parts:
